@@ -1765,6 +1765,9 @@ start_member (GMarkupParseContext *context,
   enum_ = (GIrNodeEnum *)CURRENT_NODE (ctx);
   enum_->values = g_list_append (enum_->values, value_);
 
+  /* so that <attribute> children are attached to the member */
+  ctx->current_typed = (GIrNode *) value_;
+
   return TRUE;
 }
 
@@ -2364,7 +2367,13 @@ start_attribute (GMarkupParseContext *context,
 
   curnode = CURRENT_NODE (ctx);
 
-  if (ctx->current_typed && ctx->current_typed->type == G_IR_NODE_PARAM)
+  /* Parameters, fields, properties and enumeration members are not on the
+   * node stack; while one of them is open it is ctx->current_typed. */
+  if (ctx->current_typed &&
+      (ctx->current_typed->type == G_IR_NODE_PARAM ||
+       ctx->current_typed->type == G_IR_NODE_FIELD ||
+       ctx->current_typed->type == G_IR_NODE_PROPERTY ||
+       ctx->current_typed->type == G_IR_NODE_VALUE))
     {
       g_hash_table_insert (ctx->current_typed->attributes, g_strdup (name), g_strdup (value));
     }
@@ -3575,7 +3584,10 @@ end_element_handler (GMarkupParseContext *context,
 
     case STATE_ENUM:
       if (strcmp ("member", element_name) == 0)
-	break;
+	{
+	  ctx->current_typed = NULL;
+	  break;
+	}
       else if (strcmp ("function", element_name) == 0)
 	break;
       else if (require_one_of_end_elements (context, ctx,
